@@ -34,7 +34,8 @@ Modes  == {"", "query", "fragment", "form_post"}
 Kinds  == {"code", "tokens", "idtoken", "errCallback", "errAuthorize", "errCreate"}
 DescStrings == (IF Tier = "quick" THEN Strings(1) \cup {<<x, y>> : x \in {"pct", "plus", "amp"}, y \in Classes} ELSE Strings(2)) \ {<<>>}
 RTypeOf(k, rt) == CASE k = "code" -> "code" [] k = "tokens" -> "id_token token" [] k = "idtoken" -> "id_token" [] OTHER -> rt
-URIShapes == {"plain", "withQuery", "queryPlus", "customScheme", "trailingQ", "queryEncodedAmp"}
+\* queryMarkup: a registered redirect URI whose query contains quotes and angle brackets ( ?x="><script>..&y='z' ), registered verbatim
+URIShapes == {"plain", "withQuery", "queryPlus", "customScheme", "trailingQ", "queryEncodedAmp", "queryMarkup"}
 
 \* prior: what the provider did just before - "failedWrite": form_post responses (of another flow) whose connection broke while the page was written
 Sessions == {<<>>, <<"plus", "slash">>, <<"dquote", "gt">>}
